@@ -15,12 +15,14 @@
     specification without "..." builds the single adapter of those parts and A...B the linked adapter of the two
     (C18_adapter_from_printed, C18_linked_notation); file:, ^file: and file$: turn every record into a specification
     with the anchor the prefix says, under the file-level parameters (C18_file, C18_file_anchored5, C18_file_anchored3).
-    What is still outside the theorems (C18 partial): numerals other than digits and digits.digits, blanks around
-    the separators (the parser strips them; the printed forms contain none), the text of error messages and the exit
+    Blanks around the name, the sequence part, every parameter field, its key and its value are covered too
+    (C18_parameters_blanks, C18_round_trip_blanks; Proofs/ParserBlanks.v), and the option letter x marker table is read off
+    the printed string (C18_printed_table).
+    What is still outside the theorems (C18 partial): numerals other than digits and digits.digits, the text of error messages and the exit
     status (checked against the implementation by the documentation-table oracle), and reading the FASTA file itself
     (the records are an input of the model). *)
 From Coq Require Import ZArith QArith List Bool.
-From CV Require Import Model.Base Model.Adapters Model.Parser Proofs.ParserProofs Proofs.ParserRoundTrip Proofs.ParserBraces.
+From CV Require Import Model.Base Model.Adapters Model.Parser Proofs.ParserProofs Proofs.ParserRoundTrip Proofs.ParserBraces Proofs.ParserBlanks.
 Import ListNotations.
 Open Scope Z_scope.
 
@@ -169,6 +171,40 @@ Theorem C18_file_anchored3 : forall path fs t g records, ~ In 59 path -> Forall 
   make_from_spec ([102; 105; 108; 101; 36; 58] ++ file_tail path fs) t g records = from_records [] [36] fs t g records.
 Proof. exact file_anchored3. Qed.
 Print Assumptions C18_file_anchored3.
+
+(** blanks around the fields, the keys and the values change nothing *)
+Theorem C18_parameters_blanks : forall fps, Forall (fun fp => wf_field (fst fp) /\ wf_pads (snd fp)) fps ->
+  NoDup (map (fun fp => f_key (fst fp)) fps) ->
+  parse_search_parameters (pspec_padded fps) = post_params (map (fun fp => meaning (fst fp)) fps).
+Proof. exact parse_search_parameters_padded. Qed.
+Print Assumptions C18_parameters_blanks.
+
+Theorem C18_round_trip_blanks : forall a t, wf_sast_padded a ->
+  parse_spec (show_sast_padded a) t =
+  match post_params (map (fun fp => meaning (fst fp)) (sp_ast_fields a)) with
+  | Err => Err
+  | Ok ps => finish (sp_ast_name a) (mark_front (sp_ast_mark a)) (mark_back (sp_ast_mark a)) (sp_ast_core a) ps t
+  end.
+Proof. exact parse_spec_printed_padded. Qed.
+Print Assumptions C18_round_trip_blanks.
+
+Example C18_round_trip_blanks_instance :
+  wf_sast_padded ex_padded /\
+  show_sast_padded ex_padded = [32;97;100;97;112;32;61;32;94;65;67;71;84;78;78;65;67;32;59;32;101;32;61;32;48;46;49;53;32;59;110;111;105;110;100;101;108;115;32] /\
+  parse_spec (show_sast_padded ex_padded) TFront
+  = Ok (mkSpec (Some [97;100;97;112]) RAnchored [65;67;71;84;78;78;65;67] [(KIndels, VInt 0); (KMaxErrors, VDec 15 2)] TFront false).
+Proof. split; [exact ex_padded_wf | exact ex_padded_round_trip]. Qed.
+
+(** the documented table read off the printed string: option letter x marker -> the parsed restriction; a marker on the wrong
+    side for the option is refused, -b takes none *)
+Theorem C18_printed_table : forall name m core t, wf_sast (mkA name m core []) ->
+  parse_spec (show_sast (mkA name m core [])) t =
+  match documented_restriction t m with
+  | Some r => Ok (mkSpec name r core [] t false)
+  | None => Err
+  end.
+Proof. exact printed_table. Qed.
+Print Assumptions C18_printed_table.
 
 (** the premises are satisfiable: "adap=^ACGTNNAC;e=0.15;noindels" and "^AC{3}G;noindels" are printed forms of
     well-formed abstract specifications, and they mean what the notation says *)
